@@ -498,4 +498,11 @@ theorem createSubListIdx_unrepaired_dup_witness :
     let r := createSubListIdxUnrepaired s.heap (s.lists 0) [] [0, 0]
     r.err = none ∧ ¬ (names r.heap r.list).Nodup := by decide
 
+/-- outside the property's operations, kept on record: `setNamespace` renames parameter objects
+in place, so a list that *shares* such an object can end up with duplicated names (replayed on the
+real code: corpus/C02/note-setNamespace-shared-object.txt).  This is why `Op.keepsNames` excludes it. -/
+theorem setNamespace_breaks_unique_witness :
+    let s := run State.init [.add 0 ⟨"a", 1, none⟩, .add 0 ⟨"p.a", 2, none⟩, .share 4 0 "a", .apNamespace 4 "p."]
+    ¬ (names s.heap (s.lists 0)).Nodup := by decide
+
 end Bpp.C02
